@@ -252,6 +252,31 @@ def hunt_rules(chk, repo):
         else:
             chk.violation("C14.quoting", f, what, "_path_safe(<template text>)",
                           f"{q} builds its matcher from the requoted template text but it is compared with the decoded URL.path_safe of the request: a literal part that needs percent-encoding (`/café/{{name}}`, `/my docs/...`, a static or sub-app prefix with a space or non-ASCII letter) never matches, although url_for() returns exactly that URL")
+    # the same for prefixes added later (sub-applications): whatever add_prefix() puts in front of a matcher is the path_safe form, and the
+    # sub-application hands its resources the requoted prefix it matches itself with
+    napf = 0
+    for cname in ("PlainResource", "DynamicResource"):
+        ap_ = repo.cls(MOD, cname).methods.get("add_prefix")
+        mt = repo.cls(MOD, cname).methods.get("_match")
+        if ap_ is None or mt is None:
+            continue
+        napf += 1
+        read = {a.attr for a in ast.walk(mt.node) if isinstance(a, ast.Attribute) and isinstance(a.value, ast.Name) and a.value.id == "self"}
+        stores = [st for st in ast.walk(ap_.node) if isinstance(st, ast.Assign) and isinstance(st.targets[0], ast.Attribute) and st.targets[0].attr in read]
+        if stores and all(any(isinstance(c, ast.Call) and isinstance(c.func, ast.Name) and c.func.id == "_path_safe" for c in ast.walk(st.value)) for st in stores):
+            chk.ok("C14.quoting", stores[0], f"{cname}.add_prefix: the matcher (`self.{stores[0].targets[0].attr}`) gets the path_safe form of the prefix")
+        else:
+            at = stores[0] if stores else ap_
+            chk.violation("C14.quoting", at, K.short(at), "_path_safe(prefix)",
+                          f"{cname}.add_prefix puts the quoted prefix in front of what _match() compares with the decoded URL.path_safe: under `add_subapp('/my%20docs', sub)` the sub-application is entered but none of its resources can match - `GET /my%20docs/1` is 404 although url_for() returns exactly that URL")
+    chk.expect_count("C14.quoting.prefix", napf, 2, "add_prefix implementations with a matcher")
+    psa = repo.func(MOD, "PrefixedSubAppResource.__init__")
+    hand = [c for c in prog.calls_in(psa.node) if norm.raw(c.func) == "self._add_prefix_to_resources"]
+    if hand and all(norm.raw(c.args[0]) == "self._prefix" for c in hand if c.args):
+        chk.ok("C14.quoting", hand[0], "a prefixed sub-application hands its resources the requoted prefix (self._prefix), the one it resolves with itself")
+    else:
+        chk.violation("C14.quoting", hand[0] if hand else psa, K.short(hand[0]) if hand else "_add_prefix_to_resources", "self._add_prefix_to_resources(self._prefix)",
+                      "the caller's raw spelling of the prefix reaches the sub-application's resources: with `add_subapp('/my docs', sub)` url_for() of a sub-app route yields `/my docs/1`, which is not a valid request-target (400), while the prefix resource itself answers to `/my%20docs`")
     # ---- C14.index.subapp: what was never indexed is not un-indexed -----------------------------------------------------------------------
     ap = repo.func(MOD, "PrefixedSubAppResource._add_prefix_to_resources")
     rg = repo.func(MOD, "UrlDispatcher.register_resource")
@@ -262,12 +287,62 @@ def hunt_rules(chk, repo):
         else:
             chk.violation("C14.index", c, K.short(c), "!(isinstance(resource, MatchedSubAppResource))",
                           "register_resource() never indexes a MatchedSubAppResource, but _add_prefix_to_resources() un-indexes every child: `api.add_domain(...); root.add_subapp('/api', api)` raises KeyError")
-    # ---- C14.domain: both domain rules compare the lower-cased host ------------------------------------------------------------------------
+    # ---- C14.domain: the Host header is brought into the form validation() gives the configured domain ------------------------------------
+    def transforms(nodes):
+        t = set()
+        for nd in nodes:
+            for c in ast.walk(nd):
+                if isinstance(c, ast.Call) and isinstance(c.func, ast.Attribute):
+                    if c.func.attr == "lower":
+                        t.add("lower-case")
+                    if c.func.attr in ("rstrip", "removesuffix") and c.args and isinstance(c.args[0], ast.Constant) and c.args[0].value == ".":
+                        t.add("trailing dot dropped")
+                if isinstance(c, ast.Compare) and any(isinstance(x, ast.Constant) and x.value == 80 for x in ast.walk(c)):
+                    t.add("default port 80 dropped")
+        return t
+    dom = repo.cls(MOD, "Domain")
+    conf = transforms([dom.methods["validation"].node])
+    if not conf:
+        chk.analysis_error("C14.domain: Domain.validation() no longer normalises the configured domain")
     for cname in ("Domain", "MaskDomain"):
-        md = repo.cls(MOD, cname).methods.get("match_domain")
+        cl_ = repo.cls(MOD, cname)
+        md = cl_.methods.get("match_domain")
         if md is None:
             continue
-        if any(isinstance(c, ast.Call) and isinstance(c.func, ast.Attribute) and c.func.attr == "lower" and norm.raw(c.func.value) == "host" for c in ast.walk(md.node)):
-            chk.ok("C14.domain", md, f"{cname}.match_domain compares the lower-cased Host")
+        helpers = [repo.method(cl_, c.func.attr) for c in prog.calls_in(md.node) if isinstance(c.func, ast.Attribute) and norm.raw(c.func.value) in ("self", cname, "Domain")]
+        hdr = transforms([md.node] + [h.node for h in helpers if h is not None])
+        miss = sorted(conf - hdr)
+        if not miss:
+            chk.ok("C14.domain", md, f"{cname}.match_domain normalises the Host header like validation() does the configured domain ({', '.join(sorted(conf))})")
         else:
-            chk.violation("C14.domain", md, K.short(md.node.body[-1], 60), "host.lower()", f"{cname}.match_domain is case-sensitive while its sibling lower-cases the host: `Host: WWW.Example.COM` skips the `*.example.com` sub-application (and its middlewares) and is dispatched by the parent")
+            chk.violation("C14.domain", md, K.short(md.node.body[-1], 60), f"the normalisation of Domain.validation(): {', '.join(sorted(conf))}",
+                          f"{cname}.match_domain compares the Host header without `{miss[0]}` while the configured domain went through it: `Host: WWW.Example.COM`, `Host: example.com.` or `Host: example.com:80` name the same authority but skip the domain sub-application (and its middlewares) and are dispatched by the parent")
+    # ---- C14.routedef: every method RouteDef accepts can be registered -------------------------------------------------------------------
+    RD = "aiohttp/web_routedef.py"
+    rg_ = repo.func(RD, "RouteDef.register")
+    ud = repo.cls(MOD, "UrlDispatcher")
+    ga = [c for c in prog.calls_in(rg_.node) if isinstance(c.func, ast.Name) and c.func.id == "getattr" and len(c.args) >= 2 and "add_" in norm.raw(c.args[1])]
+    meths = folder_meth_all(repo)
+    lacking = sorted(m for m in meths if f"add_{m.lower()}" not in ud.methods)
+    if not ga:
+        chk.ok("C14.routedef", rg_, "RouteDef.register does not look up per-method shortcuts dynamically")
+    elif all(len(c.args) == 3 for c in ga) or not lacking:
+        chk.ok("C14.routedef", ga[0], f"RouteDef.register falls back to add_route() for methods without a shortcut ({', '.join(lacking) or 'none'})")
+    else:
+        chk.violation("C14.routedef", ga[0], K.short(ga[0]), 'getattr(router, "add_" + method, None) with add_route() as fallback',
+                      f"hdrs.METH_ALL contains {', '.join(lacking)} but UrlDispatcher has no add_{lacking[0].lower()}(): web.route('{lacking[0]}', ...) passes the METH_ALL test and add_routes() dies with AttributeError, while router.add_route('{lacking[0]}', ...) works")
+
+
+def folder_meth_all(repo) -> set[str]:
+    """The method names in hdrs.METH_ALL, read from aiohttp/hdrs.py."""
+    hd = repo.module("aiohttp/hdrs.py")
+    vals = {}
+    for st in hd.tree.body:
+        if isinstance(st, (ast.Assign, ast.AnnAssign)):
+            t = st.targets[0] if isinstance(st, ast.Assign) else st.target
+            v = st.value
+            if isinstance(t, ast.Name) and isinstance(v, ast.Constant) and isinstance(v.value, str):
+                vals[t.id] = v.value
+            if isinstance(t, ast.Name) and t.id == "METH_ALL" and isinstance(v, (ast.Set, ast.Tuple, ast.List)):
+                return {vals.get(e.id, e.id) for e in v.elts if isinstance(e, ast.Name)}
+    raise AnalysisError("C14.routedef: hdrs.METH_ALL not found")
